@@ -56,14 +56,18 @@ MkV(vs) ==
                                  Func("f3", "priv", <<>>, <<ArgM>>, TNone, None, vs[3], "")>>)]
 EVal(x) == IF x = None THEN NumNone ELSE NumInt(x)
 (* the default marker sits on the middle variant: the implicit values after it keep counting *)
-MkE(es) == [EnumDef("E", "pub", TNm("i32"), <<Variant("A", EVal(es[1]), FALSE), Variant("B", EVal(es[2]), TRUE), Variant("C", EVal(es[3]), FALSE)>>)
+(* en: the name of the enum; `v` differs from the type `V` only in the case of its letter (the order of the emitted items must  *)
+(* not depend on how such names compare)                                                                                     *)
+MkE(es, en) == [EnumDef(en, "pub", TNm("i32"), <<Variant("A", EVal(es[1]), FALSE), Variant("B", EVal(es[2]), TRUE), Variant("C", EVal(es[3]), FALSE)>>)
               EXCEPT !.defaultable = TRUE]
 
-MkInput(ptr, fs, vs, es) ==
-  [ptr |-> ptr, mods |-> <<Module(<<"m">>, <<>>, <<MkT(fs, None), MkV(vs), MkE(es)>>)>>]
+MkInput(ptr, fs, vs, es, en) ==
+  [ptr |-> ptr, mods |-> <<Module(<<"m">>, <<>>, <<MkT(fs, None), MkV(vs), MkE(es, en)>>)>>]
 
 MCInit ==
-  /\ \E ptr \in Ptrs, fs \in FieldSets, vs \in VftSets, es \in EnumSets : input = MkInput(ptr, fs, vs, es)
+  /\ \E ptr \in Ptrs, fs \in FieldSets, vs \in VftSets, es \in EnumSets, en \in {"E", "v"} :
+        /\ (en = "v" => (vs = <<None, None, None, None>> \/ Cardinality(VftSets) = 1) /\ es \in {<<None, None, None>>, <<None, 7, None>>})
+        /\ input = MkInput(ptr, fs, vs, es, en)
   /\ InitRest
 
 MCSpec == MCInit /\ [][Next]_vars /\ WF_vars(Next)
@@ -78,7 +82,7 @@ SetDef(inp, di, d) == [inp EXCEPT !.mods[1].defs[di] = d]
 
 TStarts == Starts(Crate, input, M, T)
 VSlots == DeclSlots(V.vft)
-EVals == [i \in DOMAIN E.vars |-> reg[<<"m", "E">>].res.vars[i].val]
+EVals == [i \in DOMAIN E.vars |-> reg[<<"m", E.name>>].res.vars[i].val]
 
 DropAt(s, i) == SubSeq(s, 1, i - 1) \o SubSeq(s, i + 1, Len(s))
 InsertAt(s, i, x) == SubSeq(s, 1, i - 1) \o <<x>> \o SubSeq(s, i, Len(s))
